@@ -322,6 +322,16 @@ def _err(e):
     return [core.errclass(e), "%s: %s" % (type(e).__name__, str(e)[:200])]
 
 
+def _scramble(arr):
+    """overwrite every byte of an array the caller owns (if it is writeable)"""
+    import numpy as np
+    try:
+        if arr.flags.writeable:
+            arr.view(np.ndarray)[...] = np.frombuffer(b"\x5a" * arr.dtype.itemsize, dtype=arr.dtype)[0]
+    except Exception:  # noqa
+        pass
+
+
 def step_array(c, state):
     """the array of one step.  In a sequence with c["same_object"] the array object of the previous step is kept and its
     contents are replaced IN PLACE by this step's rows (same dtype and length required)."""
@@ -407,6 +417,8 @@ class SFileRT(_Seq, _Base):
         except Exception as e:  # noqa
             return {"write_err": _err(e)}
         raw = open(fn, "rb").read()
+        if c.get("alias"):
+            _scramble(a)                             # the file must not depend on the caller's array after the write returned
         off = None
         try:
             with sfile.SFile(fn) as sf:
@@ -451,6 +463,12 @@ class SFileRT(_Seq, _Base):
             else:
                 res = sfile.read(fn)
             out["read"] = ["ok", canon_array(res)]
+            if c.get("alias"):
+                # the caller modifies the RETURNED array and reads again: the second result must be the first one
+                _scramble(res)
+                again = sfile.read(fn)
+                if canon_array(again) != out["read"][1]:
+                    out["read"] = ["err", "EOther", "result of a second read changed after the caller modified the first result"]
         except Exception as e:  # noqa
             out["read"] = ["err"] + _err(e)
         if open(fn, "rb").read() != raw:             # frame: reading must not modify the file (C04_read_changes_nothing)
@@ -500,6 +518,8 @@ class RecfileRT(_Seq, _Base):
         except Exception as e:  # noqa
             return {"write_err": _err(e)}
         out["text"] = open(fn, "rb").read().hex()
+        if c.get("alias"):
+            _scramble(a)
         rkw = {"delim": c["delim"]}
         if api.get("nrows"):
             rkw["nrows"] = len(c["rows"])
@@ -526,6 +546,12 @@ class RecfileRT(_Seq, _Base):
                 with recfile.Recfile(fn, mode="r", dtype=dt, **rkw) as r:
                     res = r.read()
             out["read"] = ["ok", canon_array(res)]
+            if c.get("alias") and not api.get("nrows_less"):
+                _scramble(res)
+                with recfile.Recfile(fn, mode="r", dtype=dt, **rkw) as r:
+                    again = r.read()
+                if canon_array(again) != out["read"][1]:
+                    out["read"] = ["err", "EOther", "result of a second read changed after the caller modified the first result"]
         except Exception as e:  # noqa
             out["read"] = ["err"] + _err(e)
         if open(fn, "rb").read().hex() != out["text"]:   # frame: reading must not modify the file
@@ -1049,7 +1075,7 @@ def gen_cases(ctx, round, entry):
                 c["form"] = r.choice(forms)
             cs.append(c)
         # -- long tables: row counts 2^k +- 1 beyond stdio and block sizes
-        for nrows in ((16385,) if q else (1025, 4095, 16385)):
+        for nrows in ((16385,) if q else (1025, 4095, 16385, 40001)):
             f = [{"name": "i", "t": r.choice(["i2", "u2", "i1"]), "o": r.choice("<>"), "shape": []},
                  {"name": "s", "t": "S1", "o": "|", "shape": []}]
             if nrows < 2000:
@@ -1067,8 +1093,31 @@ def gen_cases(ctx, round, entry):
                 f = [{"name": "s", "t": "S%d" % w, "o": "|", "shape": []}, {"name": "k", "t": r.choice(INT_T), "o": "<", "shape": []}]
                 rows = [[[(b"a" + ctl + bytes(r.choice(b"bc") for _ in range(w))) [:w].hex()], [gen_int(r, f[1]["t"])]] for _ in range(r.randint(1, 4))]
                 cs.append({"delim": d, "fields": f, "rows": rows, "family": "control-chars"})
+        # -- interaction of two (or three) call options that are each fine alone
+        opts_s = [("order", "fd"), ("header", True), ("defaults", True), ("writer", "SFile"), ("reader", "header"), ("reader", "SFile"),
+                  ("reader", "slice"), ("reader", "recfile_offset")]
+        opts_r = [("writer", "func"), ("writer", "Open"), ("reader", "func"), ("reader", "slice"), ("nrows", True), ("dtype", "descr"),
+                  ("defaults", True)]
+        for i in range(8 if q else 40):
+            api = {}
+            for k, v in r.sample(opts_s if entry == "sfile" else opts_r, r.choice([2, 2, 3])):
+                api.setdefault(k, v)
+            f = [rnd_field(r, k) for k in range(r.randint(2, 4))]
+            c = mk_case(r, f, r.randint(1, 5), r.choice(DELIMS), "api-pairs", True)
+            c["api"] = api
+            if r.random() < 0.4:
+                c["form"] = r.choice(forms)
+            if r.random() < 0.5:
+                c["alias"] = True
+            cs.append(c)
         # -- sequences (history dimension)
-        cs.extend(gen_sequences(r, q, entry))
+        seqs = gen_sequences(r, q, entry)
+        for sc in seqs:                               # ownership: in half of the sequences every step also scrambles the written
+            if r.random() < 0.5:                      # array after the write and the returned array before a second read
+                for st in sc["steps"]:
+                    if not st.get("same_object"):
+                        st["alias"] = True
+        cs.extend(seqs)
         # -- many rows
         for nrows in ((37,) if q else (37, 150, 1000)):
             f = [{"name": "i", "t": "i8", "o": ">", "shape": []}, {"name": "s", "t": "S2", "o": "|", "shape": []},
@@ -1079,7 +1128,10 @@ def gen_cases(ctx, round, entry):
         nf = r.choice([1, 2, 2, 3, 3, 4, 5, 6])
         fields = [rnd_field(r, i) for i in range(nf)]
         safe = r.random() < 0.9
-        cs.append(mk_case(r, fields, r.randint(1, 5), r.choice(DELIMS), "random" if safe else "random-unsanitized", safe))
+        c = mk_case(r, fields, r.randint(1, 5), r.choice(DELIMS), "random" if safe else "random-unsanitized", safe)
+        if r.random() < 0.2:
+            c["alias"] = True
+        cs.append(c)
     return cs
 
 
@@ -1158,6 +1210,8 @@ def differential(ctx, entries, replay_case=None):
             ctx.count("layout:%s" % ("strided-view" if c.get("view") else "+".join(c.get("form") or ["contiguous"])))
             for k, av in sorted((c.get("api") or {}).items()):
                 ctx.count("api:%s=%s" % (k, av))
+            if c.get("alias"):
+                ctx.count("ownership:arrays-scrambled-after-write-and-after-read")
             for f in c["fields"]:
                 ctx.count("type:%s%s" % (f["t"] if f["t"][0] != "S" else "S", "" if not f["shape"] else "[%dd]" % len(f["shape"])))
             if o.get("read", ["ok"])[0] == "err":
@@ -1233,25 +1287,37 @@ TRUSTED = [
 
 
 def translate_step(ctx):
-    try:
-        c, changed = c04_translate.regenerate(ctx.impl, core.COQDIR)
-        ctx.obligation("Gen.v regenerated from esutil/recfile/records.cpp (print %%.%dg / %%.%dg, scan %%%s / %%%s, suffix %r+delim)%s" % (
-            c["p4"], c["p8"], c["s4"], c["s8"], c["suffix_char"], " [changed]" if changed else ""), True)
-    except c04_translate.TranslateError as e:
-        ctx.obligation("Gen.v regenerated from esutil/recfile/records.cpp", False, str(e))
-        ctx.violation("translation of the format constants of records.cpp failed: %s" % e,
-                      {"kind": "translation", "error": str(e),
-                       "no_longer_checks": "tie of C04/Gen.v (print_prec_f4, print_prec_f8, scan conversions, suffix rule) to "
-                                           "esutil/recfile/records.cpp; theorem C04_roundtrip_fmt_model"}, found_input=False)
-        return
-    ok = c04_translate.tie_ok(c)
-    ctx.obligation("scan formats of records.cpp are the ones the hand model implements (%f, %lf, then ' ' and the delimiter)", ok)
-    if not ok:
-        ctx.violation("the scan formats of records.cpp (%%%s, %%%s, suffix %r+delim) are not the ones TextModel.fscanf_num models" % (
-            c["s4"], c["s8"], c["suffix_char"]),
-                      {"kind": "translation", "constants": c,
-                       "no_longer_checks": "tie of TextModel.fscanf_num/read_num to make_scan_formats; theorems "
-                                           "C04_scan_field_consumes_exactly, C04_roundtrip_*"}, found_input=False)
+    """regenerate Gen.v from the sources of the tree under check.  A part outside the translator's subset keeps the constants
+    of the committed hand model and is reported (tie broken); nothing here gates the correspondence run."""
+    c, changed, problems = c04_translate.regenerate(ctx.impl, core.COQDIR)
+    ctx.obligation("Gen.v regenerated from records.cpp / Util.py / sfile.py (print %%.%dg / %%.%dg, scan %%%s / %%%s, suffix %r+delim, "
+                   "ws-mode %s, delimiters %s / %s, terminator %s, extra fgetc %s, strip [%d:] [%d:], count += %d)%s" % (
+                       c["p4"], c["p8"], c["s4"], c["s8"], c["suffix_char"], c["ws_mode"], c["elem_delim"], c["field_delim"], c["row_term"],
+                       c["extra_getc"], c["strip_recfile"], c["strip_sfile"], c["count_inc"], " [changed]" if changed else ""), not problems,
+                   "; ".join(problems))
+    for msg in problems:
+        ctx.violation("translation of the text paths failed (tie broken; the check continues with the committed hand model): %s" % msg,
+                      {"kind": "translation", "error": msg,
+                       "no_longer_checks": "tie of C04/Gen.v to esutil/recfile/records.cpp, esutil/recfile/Util.py, esutil/sfile.py "
+                                           "(theorems C04_roundtrip_fmt_model, C04_source_*)"}, found_input=False)
+
+
+def tie_step(ctx):
+    """the tie lemmas Gen.<x> = <what the hand model uses>, one obligation each, compiled against the Gen.v of this run"""
+    res = core.coq_lemmas(os.path.join(ctx.work, "tie"), c04_translate.TIE_PREAMBLE,
+                          [(st, pr) for _, st, pr in c04_translate.TIE_LEMMAS], shard=len(c04_translate.TIE_LEMMAS), tag="tie")
+    bad = []
+    for (name, st, _), (ok, msg) in zip(c04_translate.TIE_LEMMAS, res):
+        ctx.obligation("tie lemma %s: %s" % (name, st), ok, msg[-300:])
+        if not ok:
+            bad.append((name, st, msg[-600:]))
+    if bad:
+        ctx.violation("the source no longer is what the hand model implements: tie lemma(s) %s fail (Gen.v was regenerated from the "
+                      "source; the check continues with the hand model)" % ", ".join(n for n, _, _ in bad),
+                      {"kind": "tie", "failed": [[n, st, m] for n, st, m in bad],
+                       "gen": open(os.path.join(core.COQDIR, "theories", "C04", "Gen.v")).read()[-1500:],
+                       "no_longer_checks": "TieProofs.write_rows_is_source_loop / read_field_extra_getc / header_strip applied to the source"},
+                      found_input=False)
 
 
 def run(ctx, replay=None):
@@ -1271,5 +1337,7 @@ def run(ctx, replay=None):
     except Exception:  # noqa
         pass
     translate_step(ctx)
-    core.proof_step(ctx, "C04", core.ALLOW_DISCRETE)
+    core.proof_step(ctx, "C04", core.ALLOW_DISCRETE, extra_targets=["theories/C04/TieProofs.vo"])
+    if replay is None:
+        tie_step(ctx)
     differential(ctx, ENTRIES, replay)
